@@ -16,7 +16,8 @@ RULE = ("seeded histories of 10-40 operations over 4-8 signals (about 65% actuat
         "event reads / raw frames mixed with core updates and kuksa.val.v1/v2 handler calls on the same broker; set "
         "texts: the decimal text of valid and out-of-domain values, integer boundary texts of every width, malformed "
         "numerals (spaces, '+5', '-0', '5.0' for integers, '1e3', hex, Arabic digits, empty), wrong kinds (scalar / "
-        "array / null), booleans in other spellings; tokens: per principal, none, non-verifying; non-trivial = "
+        "array / null), booleans in other spellings; tokens: per principal, none, non-verifying; one case in six against "
+        "a server with authorization disabled; non-trivial = "
         "history with an accepted and a refused VISS set; distinct = distinct operation sequences")
 TRUSTED = ["extraction: ExtrOcamlBasic only; driver ocaml/model_run.ml",
            "harness/src/fam_viss.rs + fam_hist.rs: the real VISS server (viss::server::serve) on 127.0.0.1, tokio-tungstenite client, JWTs signed with certificates/jwt/jwt.key",
@@ -29,7 +30,8 @@ N_QUICK, N_THOROUGH = 120, 3000
 
 def generate(rng, tier, n=None):
     n = n or (N_QUICK if tier == "quick" else N_THOROUGH)
-    return [("w%d" % i, VI.gen_case(rng)) for i in range(n)]
+    # one case in six runs against a server with authorization disabled (every request served with full rights)
+    return [("w%d" % i, VI.gen_case(rng, open_mode=(i % 6 == 5))) for i in range(n)]
 
 
 def compare(lines, m, i):
